@@ -50,10 +50,16 @@ POOL = [
     "Feature: k\n  Scenario Outline: o\n    Given <a>\n    @t\n    Examples:\n      | a |\n      | 1 |\n",
     "",
     "Feature: l\n  Scenario: s\n    Given x\n      | a |\n      | a | b |\n",
+    "x\nFeature: m\n  Scenario: s\n",
+    "# lost comment\n" + "y\n" * 12,
+    "#language: ht\nKarakteristik: n\n  Senaryo: s\n    Sipoze a\n    Ak b\n",
+    "#language: sk\nFunkcia: o\n  Scenár: s\n    Pokiaľ a\n    Ak b\n",
 ]
 PERTURBS = ['plain English', 'switches to fr', 'switches to no + outline', 'ends inside """ doc string (indent 6)', 'ends inside ``` doc string',
             'closed doc string at indent 4', 'rejected with non-empty look-ahead queue', '11 errors (parse aborted)', 'unknown language',
-            'comments everywhere', 'Rule + Backgrounds', 'tags before Examples', 'empty', 'ragged table']
+            'comments everywhere', 'Rule + Backgrounds', 'tags before Examples', 'empty', 'ragged table',
+            'first error identical to the first error of the 11-error document', 'comment + 11 errors (document node never built)',
+            "ht: 'Ak ' is a conjunction", "sk: 'Ak ' is a when keyword"]
 
 
 def norm(o):
@@ -102,10 +108,7 @@ def one(parser, compiler, text, matcher, stop):
     if d != before:
         return ('modified', None)
     both = norm({'doc': d, 'pickles': pk})
-    again = norm({'doc': d, 'pickles': pk2})
-    if both['pickles'] != [dict(p) for p in both['pickles']]:
-        pass
-    return ('ok', both, _strip_ids(pk) == _strip_ids(pk2))
+    return ('ok', both, _strip_ids(pk) == _strip_ids(pk2), (d, pk, json.dumps([d, pk], sort_keys=True, default=repr)))
 
 
 def _strip_ids(o):
@@ -149,8 +152,16 @@ def job_histories(first, h, config):
             acc.validated += 1
             acc.nontrivial += 1
             r = None
+            live = []
             for i in hist:
                 r = one(p, c, POOL[i], m, stop)
+                if r[0] == 'ok':
+                    live.append((i, r[3]))
+            for i, (d, pk, frozen) in live:
+                if json.dumps([d, pk], sort_keys=True, default=repr) != frozen:
+                    acc.violation('result-modified-later', {'kind': 'history', 'history': list(hist), 'config': config},
+                                  'the result returned for document %d (%s) was modified by a later parse / compile of the same instances' % (i, PERTURBS[i]))
+                    break
             acc.states.add((hist[-2], hist[-1]))
             acc.trans.add((hist[-2], hist[-1], r[0]))
             acc.outcomes[r[0]] += 1
@@ -198,7 +209,8 @@ def _worker(i, text, gate, out):
         d = Parser(AstBuilder(ig)).parse(GatedScanner(text, gate, i))
         d = dict(d)
         d['uri'] = 'u'
-        out[i] = ('ok', d, Compiler(ig).compile(d))
+        # snapshot at once: a result that another parse keeps writing to must show up as a difference
+        out[i] = copy.deepcopy(('ok', d, Compiler(ig).compile(d)))
     except CompositeParserException as e:
         out[i] = ('errs', [I.err_tuple(x) for x in e.errors])
     except BaseException as e:  # noqa: BLE001
